@@ -239,7 +239,7 @@ def parse_races(stderr_text):
     return races
 
 
-PARALLEL_OPS = ("entry",)
+PARALLEL_OPS = ("entry", "entrywb")
 
 
 def run_cases(lines, harness="harness", timeout=7200, race_prop="C09"):
